@@ -81,6 +81,14 @@ CLAIMS = {
              "on every such text -- composition gives the round trip; word_85 inverts the base-85 digits for all 2^40 groups. "
              "Flate and LZW encoders are Out.",
         design_ref="§5 C16", note=NOTE, technique=BMC),
+    "C18": dict(
+        text="Option reader only: for the scalar readers (i32, f32, bool, Name, Rectangle) and for RcRef / MaybeRef, an optional "
+             "entry that is a reference to a free or never-defined object (every object number and generation) reads as None in "
+             "strict and in tolerant mode. The resolver is a stand-in that returns the error values the real Storage::resolve_ref / "
+             "StorageResolver::get return for such references (bare FreeObject / NullRef, resp. Shared{..}) -- an assumption taken "
+             "from reading the code, because the real resolver could not be executed symbolically. Derived struct readers, Vec "
+             "elements and required-entry error naming are Out.",
+        design_ref="§5 C18", note=NOTE + " Assumption A5: error shapes of the real resolver as read from file.rs.", technique=BMC),
     "C19": dict(
         text="Width table only: one insertion step from every table state of the bounded family (first_char 0..5, 0..3 entries, "
              "code 0..8; entries, default and width symbolic) sets exactly the inserted code and leaves every other code unchanged, "
@@ -102,8 +110,6 @@ NOT_APPLICABLE = {
 }
 # properties planned but not yet registered are listed as not applicable until their check exists
 PENDING = {
-    "C18": "the Option reader against the real StorageResolver (free / undefined / beyond-table reference) did not terminate in CBMC "
-           "(15 min each) once the vacuous design-round probe was corrected; derived readers need Dictionary (DESIGN §5)",
 }
 NOT_APPLICABLE.update(PENDING)
 
